@@ -84,6 +84,21 @@ def run(sc):
         if got != expect:
             return False, 'deliveries per queue %s, expected %s (each subscriber once per kind, nobody else)' % (got, expect), \
                 'subscribe:'
+        # the fabric's own answer to "is this very queue subscribed?" -- also for queues that are empty right now
+        fresh = [deque(maxlen=50), LockingDeque()]
+        for k in ('fifo', 'lifo'):
+            for s_ in ('A', 'B'):
+                if s_ not in reg[k]:
+                    continue
+                for qi, q in enumerate(queues + fresh):
+                    want = qi < len(queues) and qi in reg[k][s_]
+                    try:
+                        ans = af.subscribed(Event(signal=tag + s_), k, q)
+                    except TypeError:
+                        break
+                    if bool(ans) != want:
+                        return False, 'subscribed(%s, %s, queue %d) answers %r, the registry says %r' % (s_, k, qi, ans, want), \
+                            'fabric.subscribed'
         return True, ''
     finally:
         cleanup(af)
